@@ -122,6 +122,15 @@ func c02Run(c *vk.Ctx) {
 			cases[i].TailDelayMs = 6500
 			cases[i].SlowMs, cases[i].CloseLn = 0, false
 			cases[i].UpLen, cases[i].DownLen, cases[i].TailAfter = max(cases[i].UpLen, 4000), max(cases[i].DownLen, 4000), 2000
+		case i%40 == 23:
+			// the target starts reading 1.5 s late while the client uploads far more than the socket
+			// buffers hold (zero window towards the target for a while): everything still arrives
+			cases[i].Mode, cases[i].TgtFirst = "client-fin-first", false
+			cases[i].SlowRead, cases[i].UpLen = 1500, 700000+r.Intn(500000)
+			cases[i].SlowMs, cases[i].CloseLn, cases[i].TailDelayMs = 0, false, 0
+			if cases[i].Chunks[0] < 100 {
+				cases[i].Chunks = []int{0x3FFF}
+			}
 		case i%20 == 3:
 			cases[i].Mode = "target-done-early"
 			cases[i].DownLen = 500000 + r.Intn(700000)
@@ -159,6 +168,9 @@ func c02Run(c *vk.Ctx) {
 					}
 					if rc.AddrType == 3 {
 						c.Count("domain_targets", 1)
+					}
+					if rc.SlowRead >= 1000 {
+						c.Count("uploads_against_a_target_that_reads_late", 1)
 					}
 					if rc.TailDelayMs > 0 {
 						c.Count("long_pauses_after_a_half_close", 1)
@@ -339,6 +351,7 @@ func init() {
 			c.Require("mode_target-done-early")
 			c.Require("long_pauses_after_a_half_close")
 			c.Require("exchanges_after_many_failed_dials")
+			c.Require("uploads_against_a_target_that_reads_late")
 			c.Require("one_name_two_ports_checked")
 			c02Run(c)
 		},
